@@ -36,7 +36,9 @@ def canon_path(p):
 
 def fill(i, nd, objs):
     o = objs[i]
-    for name, v in nd["fields"]:
+    # assignment order is arbitrary: the walk follows the declaration order
+    for k in nd.get("order") or range(len(nd["fields"])):
+        name, v = nd["fields"][k]
         setattr(o, name, value_of(v, objs))
     if nd["pre"]:
         o.add_pretasks(*[objs[j] for j in nd["pre"]])
